@@ -208,10 +208,10 @@ theorem firstPrefTotals_perm {p₁ p₂ : Profile} (h : p₁.Perm p₂) :
   rw [this]
   exact (allRanked_perm h).map _
 
-theorem eliminateOne_perm {p₁ p₂ : Profile} (h : p₁.Perm p₂) :
-    ExceptEquiv SlotsEquiv (eliminateOne p₁) (eliminateOne p₂) := by
+theorem eliminateOneRaw_perm {p₁ p₂ : Profile} (h : p₁.Perm p₂) :
+    ExceptEquiv SlotsEquiv (eliminateOneRaw p₁) (eliminateOneRaw p₂) := by
   have ht := firstPrefTotals_perm h
-  unfold eliminateOne
+  unfold eliminateOneRaw
   simp only
   rw [ht.length_eq]
   match (firstPrefTotals p₂).length with
@@ -243,6 +243,37 @@ theorem slotCands_equiv {r₁ r₂ : List Slot} (h : SlotsEquiv r₁ r₂) : (sl
 theorem length_equiv {r₁ r₂ : List Slot} (h : SlotsEquiv r₁ r₂) : r₁.length = r₂.length := by
   obtain ⟨e₁, e₂, T₁, T₂, m, rfl, rfl, he, _⟩ := h
   simp [he.length_eq]
+
+theorem anyTie_shape (e T : List Cand) (m : Nat) :
+    (e.map Slot.cand ++ List.replicate m (Slot.tie T)).any isTie = decide (0 < m) := by
+  rw [List.any_append]
+  have h1 : (e.map Slot.cand).any isTie = false := by
+    rw [List.any_eq_false]; intro s hs; obtain ⟨c, _, rfl⟩ := List.mem_map.1 hs; simp [isTie]
+  rw [h1, Bool.false_or]
+  cases m with
+  | zero => rfl
+  | succ k => simp [List.replicate_succ, isTie]
+
+/-- equivalent selections both contain a tie or neither does (the refusal test of fix 30bd79e) -/
+theorem anyTie_equiv {r₁ r₂ : List Slot} (h : SlotsEquiv r₁ r₂) : r₁.any isTie = r₂.any isTie := by
+  obtain ⟨e₁, e₂, T₁, T₂, m, rfl, rfl, _, _⟩ := h
+  rw [anyTie_shape, anyTie_shape]
+
+/-- `eliminate_one` with its refusal of a tied elimination (fix 30bd79e) -/
+theorem eliminateOne_perm {p₁ p₂ : Profile} (h : p₁.Perm p₂) :
+    ExceptEquiv SlotsEquiv (eliminateOne p₁) (eliminateOne p₂) := by
+  have hr := eliminateOneRaw_perm h
+  unfold eliminateOne
+  cases h1 : eliminateOneRaw p₁ <;> cases h2 : eliminateOneRaw p₂ <;> rw [h1, h2] at hr
+  · exact hr
+  · exact hr.elim
+  · exact hr.elim
+  · have hr' : SlotsEquiv _ _ := hr
+    simp only
+    rw [length_equiv hr', anyTie_equiv hr']
+    split
+    · exact rfl
+    · exact hr'
 
 /-! ### the loop -/
 
